@@ -674,6 +674,45 @@ M2D_FORMS = {
 }
 
 
+M2D_DEEP = ("assert isinstance(kwargs, dict)\n"
+            "assert isinstance(separator, str)\n"
+            "new_kwargs = {}\n"
+            "for k, v in kwargs.items():\n"
+            "    keys = k.split(separator)\n"
+            "    val = v if len(keys) == 1 else {separator.join(keys[1:]): v}\n"
+            "    if isinstance(val, dict) and isinstance(new_kwargs.get(keys[0]), dict):\n"
+            "        new_kwargs[keys[0]] = update_nested_dict(new_kwargs[keys[0]], val)\n"
+            "    else:\n"
+            "        new_kwargs[keys[0]] = val\n"
+            "for k, v in new_kwargs.items():\n"
+            "    if isinstance(v, dict):\n"
+            "        new_kwargs[k] = magic_to_dict(v, separator=separator)\n"
+            "return new_kwargs")
+M2D_MODES = {"MDeep": M2D_DEEP, "MFresh": M2D_FORMS["fresh"], "MInplace": M2D_FORMS["inplace"]}
+
+_VPC_RAISE = ("if not isinstance(val, class_):\n"
+              "    raise ValueError(f'the `{name}` property of `{type(parent).__name__}` must be an instance \\nof "
+              "`{class_}` or a dictionary with equivalent key/value pairs \\nbut received {repr(val)} instead')\n"
+              "return val")
+VPC_FORMS = {
+    "copy": ("if isinstance(val, dict):\n    val = class_(**val)\nelif val is None:\n    val = class_()\n"
+             "elif isinstance(val, class_):\n    val = val.copy()\n" + _VPC_RAISE),
+    "keep": ("if isinstance(val, dict):\n    val = class_(**val)\nelif val is None:\n    val = class_()\n"
+             + _VPC_RAISE),
+}
+
+_SCS_TAIL = ("if kwargs:\n    arg.update(kwargs)\nstyle_kwargs = arg\nif _validate:\n"
+             "    style_kwargs = validate_style_keys(arg)\nfor child in self._children:\n"
+             "    if isinstance(child, Collection) and recursive:\n"
+             "        self.__class__.set_children_styles(child, style_kwargs, _validate=False)\n"
+             "    style_kwargs_specific = {k: v for k, v in style_kwargs.items() "
+             "if k.split('_')[0] in child.style.as_dict()}\n"
+             "    child.style.update(**style_kwargs_specific, _match_properties=True)\nreturn self")
+SCS_FORMS = {
+    "copy": "arg = {} if arg is None else arg.copy()\n" + _SCS_TAIL,
+    "inplace": "if arg is None:\n    arg = {}\n" + _SCS_TAIL,
+}
+
 _VS_RAISE = ("    raise ValueError(f'Input parameter `style` must be of type {self._style_class}.\\n"
              "Instead received type {type(val)}')\n")
 VALIDATE_STYLE_FORMS = {
@@ -805,10 +844,16 @@ def collect(repo, strict=True):
 
     whole_body_ = form
     flags = {
+        "magic_merge_fresh": None,
         "reset_mode": whole_body_(dcls.DefaultSettings.reset, RESET_FORMS, "DefaultSettings.reset"),
         "ctor_copies_style": whole_body_(basegeo._process_style_kwargs, PROCESS_FORMS,   # pylint: disable=protected-access
                                         "BaseGeo._process_style_kwargs") == "copy",
-        "magic_merge_fresh": whole_body_(dutil.magic_to_dict, M2D_FORMS, "magic_to_dict") == "fresh",
+        "magic_mode": whole_body_(dutil.magic_to_dict, M2D_MODES, "magic_to_dict"),
+        "subobject_instance_copied": whole_body_(dutil.validate_property_class, VPC_FORMS,
+                                                 "validate_property_class") == "copy",
+        "set_children_copies_arg": whole_body_(
+            importlib.import_module("magpylib._src.obj_classes.class_Collection").BaseCollection.set_children_styles,
+            SCS_FORMS, "Collection.set_children_styles") == "copy",
         "style_setter_takes_instance": whole_body_(basegeo._validate_style, VALIDATE_STYLE_FORMS,   # pylint: disable=protected-access
                                                   "BaseGeo._validate_style") == "takeover",
         "recursion_forwards_style_kwargs": guarded(lambda: recursion_forwards(
@@ -833,6 +878,7 @@ def collect(repo, strict=True):
         table.append((v, r))
         if r is not None:
             pool.append(r)      # the table is closed under canonical outputs (idempotence is checked in Coq)
+    flags["magic_merge_fresh"] = flags["magic_mode"] in ("MDeep", "MFresh")
     return {"DEFAULTS": defaults, "defaults_schema": defaults_struct, "style_classes": structs,
             "object_classes": rows, "ctor_style": fwd, "colors": table, "family_spec": spec_rows, "flags": flags,
             "stats": (sb.nclasses, sb.nprops, sorted(set((a, b, tuple(c)) for a, b, c in sb.aliases)))}
@@ -870,7 +916,10 @@ def generate(repo):
     out.append("(* source forms recognised as a whole *)")
     out.append(f"Definition reset_mode : rmode := {fl['reset_mode']}.")
     out.append(f"Definition ctor_copies_style : bool := {b(fl['ctor_copies_style'])}.")
+    out.append(f"Definition magic_mode : mmode := {fl['magic_mode']}.")
     out.append(f"Definition magic_merge_fresh : bool := {b(fl['magic_merge_fresh'])}.")
+    out.append(f"Definition subobject_instance_copied : bool := {b(fl['subobject_instance_copied'])}.")
+    out.append(f"Definition set_children_copies_arg : bool := {b(fl['set_children_copies_arg'])}.")
     out.append(f"Definition style_setter_takes_instance : bool := {b(fl['style_setter_takes_instance'])}.")
     out.append(f"Definition recursion_forwards_style_kwargs : bool := {b(fl['recursion_forwards_style_kwargs'])}.\n")
     out.append("Definition colors : color_table :=\n  "
